@@ -109,7 +109,7 @@ class C12(Profile):
     owns_registries = True
     tiers = {'quick': 1500, 'thorough': 100000}
     wall_cap = {'quick': 1200, 'thorough': 6 * 3600}
-    probes = ['optimizer_filters', 'attached_to_source', 'attached_to_composite', 'composite_facade', 'empty_result',
+    probes = ['member_filter_on_the_first_member_only', 'optimizer_filters', 'attached_to_source', 'attached_to_composite', 'composite_facade', 'empty_result',
               'nonempty_result', 'timestamp_respelled', 'datetime_value', 'contradictory_type_filters', 'law_intersection',
               'law_monotone', 'get_with_attached_filter', 'dotted_path', 'duplicate_filter', 'store_changed_between_queries', 'coarse_file_timestamps', 'nested_composites_both_filtered']
     rule = ('plans: a population of 3-25 object versions added identically to a MemoryStore and a FileSystemStore (simulated disk), then '
@@ -223,6 +223,8 @@ class C12(Profile):
         cds = stix2.CompositeDataSource()
         cds.add_data_sources([sw.M.source, sw.F.source])
         sw.cds = cds
+        sw.cds_rev = stix2.CompositeDataSource()          # the same two members attached in the other order
+        sw.cds_rev.add_data_sources([sw.F.source, sw.M.source])
         for i, op in enumerate(plan['ops']):
             world.op_index = i
             world.stat('op:' + op['op'])
@@ -286,8 +288,9 @@ class C12(Profile):
             v = tsparse.fmt(us, digits=6)
         return (f['p'], f['o'], v)
 
-    def run(self, sw, facade, arg, src, comp, what, sid=None, nest=False):
-        """Attach, call, detach.  Returns Outcome."""
+    def run(self, sw, facade, arg, src, comp, what, sid=None, nest=False, f_only=False):
+        """Attach, call, detach.  Returns Outcome.  f_only: composite with the filesystem member FIRST, the `src` filters attached
+        to that member alone (the memory member answers for everything that passes the query and the composite's filters)."""
         if nest and facade == 'C':
             # two layers: the `src` filters sit on an INNER composite of the two sources, the `comp` filters on the outer one
             # that federates it; every one of them applies
@@ -313,7 +316,10 @@ class C12(Profile):
         added = []
         failed = None
         try:
-            for fset, fl in [(s.filters, src) for s in sources] + [(sw.cds.filters, comp)]:
+            cds = sw.cds_rev if f_only else sw.cds
+            if f_only:
+                sources = [sw.F.source]
+            for fset, fl in [(s.filters, src) for s in sources] + [(cds.filters, comp)]:
                 for f in fl:
                     if f not in list(fset):
                         a = call(fset.add, f)
@@ -323,7 +329,7 @@ class C12(Profile):
                             failed = Violation('attach', 'C12.attach/added-filter-not-in-set',
                                                dict(filter=repr(f), outcome=a.tag, held=[repr(x) for x in fset][:6]))
                             raise failed
-            target = {'M': sw.M, 'F': sw.F, 'C': sw.cds}[facade]
+            target = {'M': sw.M, 'F': sw.F, 'C': cds}[facade]
             if what == 'query':
                 return call(target.query, list(arg))
             if what == 'get':
@@ -352,9 +358,13 @@ class C12(Profile):
             # attached filters only (oracle 3)
             triples = [self.ref_triple(f) for f in fs if f.get('via', 'arg') != 'arg']
             arg = []
+        f_only = (facade == 'C' and not op.get('nest') and what in ('query', 'all_versions') and bool(src) and bool(comp)
+                  and op.get('ls_key', 0) % 3 == 1)
         sw.disk.begin_op(op.get('ls_key', 0))
-        out = self.run(sw, facade, arg, src, comp, what, sid, nest=bool(op.get('nest')))
+        out = self.run(sw, facade, arg, src, comp, what, sid, nest=bool(op.get('nest')), f_only=f_only)
         sw.disk.end_op()
+        if f_only:
+            world.probe('member_filter_on_the_first_member_only')
         if src:
             world.probe('attached_to_source')
         if comp and facade == 'C':
@@ -386,7 +396,13 @@ class C12(Profile):
             raise Violation('query-total', 'C12.%s-raised/%s/%s' % (what, facade, type(out.exc).__name__),
                             dict(exc=repr(out.exc)[:300], filters=desc))
         try:
-            exp_keys = {k for k, j in pop.items() if FE.matches(j, triples)}
+            if f_only:
+                # each member answers for what IT holds under the filters that apply to IT
+                no_src = [self.ref_triple(f) for f in fs if f.get('via') != 'src' and (what == 'query' or f.get('via', 'arg') != 'arg')]
+                exp_keys = ({k for k, j in self.raw['M'].items() if FE.matches(j, no_src)} |
+                            {k for k, j in self.raw['F'].items() if FE.matches(j, triples)})
+            else:
+                exp_keys = {k for k, j in pop.items() if FE.matches(j, triples)}
         except TypeError:
             world.stat('reference_unlike_types_skipped')
             return
@@ -408,7 +424,7 @@ class C12(Profile):
                 world.state('opt', tuple(sorted((f['p'], f['o']) for f in fs)), bool(exp_keys))
             world.probe('nonempty_result' if exp_keys else 'empty_result')
             world.log(op='query', facade=facade, n=len(obs), filters=desc)
-            if op.get('law') and len(built) >= 2:
+            if op.get('law') and len(built) >= 2 and not f_only:
                 self.laws(sw, world, op, built, facade, set(obs))
         elif what == 'all_versions':
             obs = [SW.obj_key(o) for o in out.value]
